@@ -162,7 +162,7 @@ def generate():
                 "Definition reject_keeps := %s.\nDefinition accept_adds_dt := %s.\nDefinition update_plus := %s.\n"
                 "Definition clock_guard_positive := %s.\nDefinition argmin_first := %s.\nDefinition vmat_is_matrix := %s.\n"
                 % tuple(coq_bool(b) for b in (rk, aa, up, cg, fr, vm)))
-    except Unsupported as u:
+    except (Unsupported, ValueError, TypeError, IndexError, KeyError, AttributeError, AssertionError, RecursionError) as u:   # any surprise in the source = fail closed
         return HEAD + failed("StochGen", str(u)) + DEFAULTS
 
 
